@@ -805,6 +805,11 @@ func sizes(thorough bool) (n, mid int) {
 		n *= 40
 		mid *= 8
 	}
+	if os.Getenv("VERIF_SEARCH") != "" {
+		// the search pass after a broken tie: at most 3x the quick budget, so
+		// that a failing quick run stays well under two minutes
+		n, mid = 3*600, 3*24
+	}
 	return
 }
 
